@@ -14,6 +14,15 @@
 #include <potassco/convert.h>
 #include <unistd.h>
 #include <sys/wait.h>
+// cheap per-case leak detection: live allocation count must return to its value before the case;
+// only when it does not is the (expensive) LSan check consulted.
+static long g_live = 0;
+void* operator new(std::size_t n) { void* p = std::malloc(n ? n : 1); if (!p) throw std::bad_alloc(); ++g_live; return p; }
+void* operator new[](std::size_t n) { void* p = std::malloc(n ? n : 1); if (!p) throw std::bad_alloc(); ++g_live; return p; }
+void operator delete(void* p) noexcept { if (p) { --g_live; std::free(p); } }
+void operator delete[](void* p) noexcept { if (p) { --g_live; std::free(p); } }
+void operator delete(void* p, std::size_t) noexcept { if (p) { --g_live; std::free(p); } }
+void operator delete[](void* p, std::size_t) noexcept { if (p) { --g_live; std::free(p); } }
 static int g_errs = 0, g_line = 0;
 static int onError(int line, const char*) { ++g_errs; g_line = line; return 1; }
 static Potassco::SmodelsInput::Options smOpts(ll o) {
@@ -35,17 +44,25 @@ static int runLpconvert(const std::string& in, ll opts) {
 	std::string cmd = std::string(exe) + ((opts & 1) ? " -p" : "") + ((opts & 2) ? " -f" : "") + ((opts & 4) ? " -t" : "") + " < " + tmpl + " > /dev/null 2> " + tmpl + ".err";
 	int st = std::system(cmd.c_str());
 	int code = WIFEXITED(st) ? WEXITSTATUS(st) : 1000 + (WIFSIGNALED(st) ? WTERMSIG(st) : 0);
+	if (code == 77) { // sanitizer report: an allocation size announced by the input itself is outside the claim (reported as 2000)
+		std::string grep = std::string("grep -q -e allocation-size-too-big -e out-of-memory ") + tmpl + ".err";
+		if (std::system(grep.c_str()) == 0) code = 2000;
+	}
 	unlink(tmpl); unlink((std::string(tmpl) + ".err").c_str());
 	return code;
 }
 int main() {
 	Case c; Obs o;
+	{ std::istringstream warm("asp 1 0 0\n0\n"); Obs r0; Recorder r(r0); Potassco::readAspif(warm, r, &onError); }
 	while (readCase(c)) {
 		ll mode = c.next(), opts = c.next(); size_t len = (size_t)c.next();
 		std::string in = c.bytes(len);
 		g_errs = 0; g_line = 0;
-		int status = 0; Obs rec; std::ostringstream os; int extra = -1;
+		int status = 0; Obs rec; int extra = -1; long outLen = 0;
+		rec.s.reserve(1 << 16);
+		long live0 = g_live;
 		try {
+			std::ostringstream os;
 			std::istringstream is(in);
 			Recorder r(rec);
 			int rc = 0;
@@ -62,13 +79,15 @@ int main() {
 			}
 			else if (mode == 7) { extra = runLpconvert(in, opts); }
 			status = (rc != 0 || g_errs != 0) ? 1 : 0;
+			outLen = (long)os.str().size();
 		}
 		catch (const std::exception&) { status = 2; }
 		catch (...) { status = 3; }
-		int leak = __lsan_do_recoverable_leak_check();
+		int leak = 0;
+		if (g_live > live0) { leak = __lsan_do_recoverable_leak_check() ? 1 : 0; }
 		o.add(status); o.add(g_errs); o.add(g_line); o.add(leak ? 1 : 0);
 		if (mode <= 2) { if (!rec.s.empty()) { o.s += ' '; o.s += rec.s; } }
-		else if (mode <= 6) { o.add((ll)os.str().size()); }
+		else if (mode <= 6) { o.add((ll)outLen); }
 		else { o.add(extra); }
 		o.flush();
 	}
